@@ -12,11 +12,77 @@ CFG = dict(
     corr='Heap.run_prog (model/Heap.v) vs the Go runtime on random slice programs (make/sub-slice/append/copy/Concat/Clone/write)',
     rule='P cases: random slice programs, class = set of instruction kinds x length bucket, non-trivial when the program appends, copies or writes; G cases: the guard-region catalogue (every template x {primitive calls, accessors/serialization}, every subtle constructor, legacy adapters x prefix types), class = catalogue entry',
     assumptions=['Go slice semantics as modelled in model/Heap.v (validated on the random programs of this run)',
-                 'aliasing inside the standard library and the protobuf runtime is not modelled',
-                 'the syntactic site scan (harness/cmd/translate/alias.go) is in the trusted base; sites it cannot see are covered only by the guard-region catalogue'],
+                 'aliasing inside the standard library and the protobuf runtime is not modelled: callees outside the library act as the trusted call table of harness/cmd/translate/bodies_ext.go says',
+                 'the body translator (harness/cmd/translate/bodies_*.go) and the syntactic site scan (alias.go) are in the trusted base; functions it lists as untranslated, and object-level sharing (returning or keeping an OBJECT somebody else built), are covered only by the guard-region catalogue',
+                 'closed world for dynamic calls: a call through a library interface / function value is resolved to the library types that are ever converted to an interface (plus all exported types of public packages) / the functions ever used as values'],
 )
+
+
+def _body_coverage():
+    """Coverage of the body-level tie, read from the gen/AliasBodies.v of THIS run's workspace (written by the
+    translator before the evidence is written), so that untranslated functions are reported in the evidence."""
+    import hashlib, os, re
+    try:
+        v = os.environ.get('VERIF_HOME') or os.path.dirname(os.path.dirname(os.path.dirname(os.path.abspath(__file__))))
+        repo = os.path.abspath(os.environ.get('VERIF_REPO', '/repo'))
+        coq = f'{v}/coq' if repo == '/repo' else f'{v}/build/ws/' + hashlib.sha1(repo.encode()).hexdigest()[:10] + '/coq'
+        src = open(f'{coq}/gen/AliasBodies.v').read()
+        num = lambda n: re.search(r'Definition %s : nat := (\d+)\.' % n, src).group(1)
+        i, j = src.index('Definition c19_body_untranslated'), src.index('Definition c19_body_exceptions')
+        untr = re.findall(r'\("([^"]*)", "([^"]*)", "([^"]*)"\)', src[i:j])
+        exc = sorted(set(re.findall(r'\("([^"]*)", "([^"]*)", "[^"]*"\)', src[j:])))
+        return ('body-level tie of this run: %s function bodies considered (%s interface-only helpers, %s function literals), %s translated (%s API, %s instructions); '
+                'UNTRANSLATED (covered only by the guard-region catalogue): %s; API functions in the exception list: %s'
+                % (num('c19_bodies_considered'), num('c19_bodies_helpers_with_interface_parameters'), num('c19_bodies_function_literals'),
+                   num('c19_bodies_translated'), num('c19_bodies_api'), num('c19_bodies_instructions'),
+                   '; '.join(f'{a} {b}: {c}' for a, b, c in untr) or 'none', ', '.join(f'{a} {b}' for a, b in exc) or 'none'))
+    except Exception as e:  # pragma: no cover
+        return 'body-level tie: coverage could not be read (%s)' % e
+
+
+class _Cfg(dict):
+    def get(self, k, d=None):
+        if k == 'assumptions':
+            return list(dict.get(self, k, [])) + [_body_coverage()]
+        return dict.get(self, k, d)
+
+
+CFG = _Cfg(CFG)
+
+
+def _call_table():
+    """The trusted call table, read from the translator source so that the note cannot go stale."""
+    import re, os
+    try:
+        src = open(os.path.join(os.path.dirname(__file__), '..', '..', 'harness', 'cmd', 'translate', 'bodies_ext.go')).read()
+        tab = src[src.index('var extTable'):src.index('// TRUSTED DEFAULT')]
+        ents = re.findall(r'"([^"]+)":\s*"([^"]*)"', tab)
+        short = lambda k: k.replace('google.golang.org/protobuf/', 'protobuf/').replace('golang.org/x/crypto/', 'x/crypto/').replace('encoding/binary.', 'binary.').replace('crypto/cipher.', 'cipher.')
+        wr = [f'{short(k)}[{v}]' for k, v in ents if v and v != 'r=fresh']
+        rd = [short(k) for k, v in ents if not v or v == 'r=fresh']
+        fresh = re.search(r'var freshPkgs = \[\]string\{(.*?)\n\}', src, re.S).group(1)
+        view = re.search(r'var viewPkgs = \[\]string\{(.*?)\}', src, re.S).group(1)
+        pk = lambda t: ' '.join(re.findall(r'"([^"]+)"', t))
+        return ('TRUSTED CALL TABLE (w<i> = writes argument i, a<i> = appends to argument i and returns it, k<i> = keeps argument i, r=<i> = result is a view of argument i; '
+                'methods count the receiver as 0): ' + '; '.join(wr) + '. Read-only / fresh-result entries: ' + ', '.join(rd) +
+                '. Default for other functions of these packages (only if no []byte parameter is named dst/out/buf/b/p/to/dest/output/result, else the caller is untranslated): reads its arguments, byte results fresh: ' + pk(fresh) +
+                '; byte results may be views of any byte argument: ' + pk(view) +
+                '. Generated protobuf getters return views of the message (not owned); any other callee outside the library with byte arguments or results makes its caller untranslated.')
+    except Exception as e:  # pragma: no cover
+        return 'TRUSTED CALL TABLE: see harness/cmd/translate/bodies_ext.go (could not be read: %s)' % e
+
+
 MANIFEST = dict(
-    text='PARTIAL. Theorems in coq/props/C19.v over a slice/heap model with array identity and capacity (model/Heap.v): slices.Concat and bytes.Clone never modify an existing array and return a fresh one (for all heaps/slices); append with spare capacity writes into the caller\'s array (and the append-on-parameter idiom is refuted by a witness); the three idioms the library uses at its API boundary (message suffixing by Concat, constructor stores a clone, accessor returns a clone) satisfy the frame property; AT PROGRAM LEVEL (C19_disciplined_program_frames_the_caller, induction over programs of the slice language): any function that writes only through slices obtained from its own allocations (make, Clone, Concat, append on an owned slice, sub-slices of those) leaves every view the caller has of its memory unchanged, up to capacity, and everything it owns lives in arrays allocated during the call, disjoint from all caller slices - and each forbidden instruction on a parameter is refuted by a witness. The tie to the source is a table of boundary-crossing sites regenerated from /repo by the translator on every run, with the obligation that no site appends to / stores / returns a byte slice without a copy; every site (120 at the pinned commit) is also emitted as a program of the slice language, the obligation being that each is disciplined and keeps/returns an owned slice, so that the frame theorem applies to every site (C19_every_site_of_the_source_frames_the_caller); and a differential run of the heap model against the Go runtime on random slice programs. The search for a concrete failing input is a guard-region catalogue run against the real code: inputs inside canary-filled buffers with spare capacity for every primitive class/key type incl. legacy adapters, then inputs/outputs mutated and keys/handles/later results compared with pristine copies (reflection over all key and parameter accessors).',
-    note='Trusted: Coq kernel, extraction, the translator\'s syntactic site scan, the Go harness. Not modelled: aliasing inside the Go standard library and the protobuf runtime; the heap model covers byte slices only. The catalogue samples message sizes; it is a search, not a proof.',
-    technique='Coq frame theorems over a slice/heap model + regenerated site table obligation + differential run of the model against the Go runtime; guard-region catalogue as failing-input search',
+    text='PARTIAL. Theorems in coq/props/C19.v over a slice/heap model with array identity and capacity (model/Heap.v, validated against the Go runtime on random slice programs in every run). '
+         '(1) Idioms, for all heaps and slices: slices.Concat and bytes.Clone never modify an existing array and return a fresh one; append with spare capacity writes into the caller\'s array (append-on-parameter refuted by a witness); message suffixing by Concat, constructor-stores-a-clone and accessor-returns-a-clone satisfy the frame property. '
+         '(2) Straight-line programs (C19_disciplined_program_frames_the_caller): a program that writes only through slices obtained from its own allocations leaves every view the caller has of its memory unchanged, up to capacity, and owns only fresh arrays; each forbidden instruction is refuted by a witness. '
+         '(3) FUNCTION BODIES (model/HeapProg.v, C19_disciplined_body_frames_the_caller, induction over executions): a structured language - registers, the slice operations with freely chosen indices/lengths/bytes, opaque callee writes, stores into objects, escapes (return / store in a shared object / kept by a callee), branches, loops with break/continue, early return, abort at any point (panic) - and an ownership analysis (flags joined with AND at control-flow joins, loop heads lowered to a fixpoint). A body that passes the analysis from initial flags own0 changes, on EVERY execution, no caller array except those of the parameters flagged in own0, and lets escape only slices in arrays allocated during the call or in those flagged parameters; non-vacuity example and three refutations (callee write into / append to / keeping a parameter) included. '
+         'THE TIE TO THE SOURCE (regenerated from /repo on every run, gen/AliasBodies.v): the translator emits the slice-relevant behaviour of the BODY of every function, method and capture-free function literal of the library\'s non-test packages that has a byte-carrying parameter, receiver or result ([]byte, *[N]byte, [][]byte, structs with such fields), plus the internal helpers that only take interface values. Call sites carry the callee\'s effect: a trusted table for callees outside the library, an inferred summary (parameters written through / kept, what each result may alias; global fixpoint) for callees inside, joined over all candidate implementations for calls through interfaces and function values. Obligations, checked by computation in Coq on the table: every translated body passes the ownership analysis from its initial flags (every_body_ok); an exported function or method of a non-internal package outside the explicit exception list starts with NO owned parameter or receiver memory (api_bodies_own_nothing), so by C19_every_api_function_body_frames_the_caller it changes nothing the caller can see and everything it returns or stores is freshly allocated; an internal helper is checked under its inferred contract (the parameters it writes or keeps), which every call site must satisfy with owned slices (C19_every_function_body_frames_the_caller). '
+         'COVERAGE at the pinned commit: 1402 function bodies considered (1243 by the definition above, 118 interface-only helpers, 41 function literals), 1400 translated (808 API functions, 10411 instructions), 2 UNTRANSLATED with their reasons in c19_body_untranslated (a closure with return statements in streamingaead decryptReader.Read; a call through registry.PrivateKeyManager with no implementation inside the library); 17 API functions are in the exception list c19_body_exceptions with the reason (per-stream io.Writer/io.Reader objects and their constructors, Read(p) filling the caller\'s buffer, the ...WithDst segment functions that write into dst by contract, two constructors that take a POINTER to the caller\'s ed25519 key). Untranslated functions, excepted functions, and object-level sharing (returning or keeping an object that somebody else built, e.g. a key serialization instead of its clone) are covered ONLY by the guard-region catalogue. '
+         'The older copy-site table (one Clone/Concat instruction per site; the selection criterion implies the conclusion) is kept as C19_every_single_copy_site_is_framed and as the obligation that no site appends to / stores / returns a byte slice without a copy. '
+         'The search for a concrete failing input is the guard-region catalogue run against the real code: inputs inside canary-filled buffers with spare capacity for every primitive class/key type incl. legacy adapters, then inputs/outputs mutated and keys/handles/later results compared with pristine copies (reflection over all key and parameter accessors), every subtle constructor (now incl. the ED25519 signer/verifier). '
+         'Finding of the body-level tie (repaired in /repo 244d1a5, seeded/X-revert-244d1a5): signature/subtle.NewED25519Verifier kept the caller\'s public-key slice.',
+    note='Trusted: Coq kernel, extraction, the Go harness, the translator (harness/cmd/translate/bodies_*.go, alias.go) including: the classification of types that can reach byte memory; the encapsulation rule for objects (an object the function was handed may be stored or returned as a whole; its byte fields, when selected, are memory the function does not own; objects built in the function are followed, and a function in which a callee writes through a built object that may hold handed-in objects is reported untranslated); the closed-world resolution of calls through interfaces and function values; the exception list. Not modelled: aliasing inside the Go standard library and the protobuf runtime beyond the call table; goroutines, deferred calls with byte arguments, channels of byte data, goto/labels (such functions are reported untranslated). The catalogue samples message sizes; it is a search, not a proof. '
+         + _call_table(),
+    technique='Coq frame theorems over a slice/heap model (idioms, straight-line programs, structured function bodies with an ownership analysis) + regenerated table of translated function bodies with computed obligations + differential run of the heap model against the Go runtime; guard-region catalogue as failing-input search',
 )
